@@ -16,7 +16,9 @@ Theorem c01_ref_is_mapspec : forall s now r c,
 Proof. exact ref_is_mapspec. Qed.
 Print Assumptions c01_ref_is_mapspec.
 
-(* one request, any of the six orchestrator configurations, either protocol *)
+(* one request, any of the six orchestrator configurations, either protocol. [combo_ok] excludes
+   locked + text + multi-key get (refuted below), gat/gete in text, and a get with no key at all
+   through the locking wrapper (it answers nothing; no parser produces such a request) *)
 Theorem c01_request : forall p k lck now l1 l2 r,
   inv k now l1 l2 -> in_scope k r = true -> combo_ok p lck r = true ->
   let '(l1', l2', cs, c) := serve1 std_exec std_exec (orca_cfg k lck) r l1 l2 now in
@@ -25,7 +27,8 @@ Theorem c01_request : forall p k lck now l1 l2 r,
 Proof. exact request_refines. Qed.
 Print Assumptions c01_request.
 
-(* every history, main and batch port interleaved, with arbitrary L1 evictions *)
+(* every history, main and batch port interleaved, with arbitrary L1 evictions (when an L2 is
+   deployed; with L1 alone the L1 is the map, and [hist_ok] admits no evictions from it) *)
 Theorem c01_refines_spec : forall p two lck h l1 l2,
   hist_ok p two lck h ->
   (forall now, inv (kind_of two PMain) now l1 l2) ->
